@@ -85,7 +85,7 @@ impl<IO> tokio_native_tls::TlsStream<IO> {
 //@check_struct file=actix-tls/src/accept/native_tls.rs name=AcceptorService fields=acceptor,conns,handshake_timeout
 //@extract_type file=actix-tls/src/accept/native_tls.rs item="struct AcceptorService"
 
-//@extract file=actix-tls/src/accept/native_tls.rs item="impl<IO: ActixStream + 'static> Service<IO> for AcceptorService / fn call" async_block=1 block_sig="async fn call_block<IO>(io: IO, guard: CounterGuard, acceptor: TlsAcceptor, dur: Duration) -> Result<TlsStream<IO>, TlsError<Error, Infallible>>" ret=r props=C18 name=native_tls::call_block
+//@extract file=actix-tls/src/accept/native_tls.rs item="impl<IO: ActixStream + 'static> Service<IO> for AcceptorService / fn call" async_block=1 block_sig="async fn call_block<IO>(io: IO, guard: CounterGuard, acceptor: TlsAcceptor, dur: Duration) -> Result<TlsStream<IO>, TlsError<Error, Infallible>>" ret=r props=C18 name=native_tls::call_block bind="guard=self.conns.get();;acceptor=self.acceptor.clone();;dur=self.handshake_timeout"
 //@spec
     requires true,
     ensures
@@ -130,7 +130,7 @@ impl AcceptorService {
         !(self.conns.count() < self.conns.capacity()) ==> r is Pending,
 //@end
 
-//@extract file=actix-tls/src/accept/native_tls.rs item="impl<IO: ActixStream + 'static> Service<IO> for AcceptorService / fn call" ret=r props=C18 name=native_tls::call sig_replace="fn call(&self, io: IO)=>fn call<IO>(&self, io: IO)" async_block_call="call_block(io, guard, acceptor, dur)"
+//@extract file=actix-tls/src/accept/native_tls.rs item="impl<IO: ActixStream + 'static> Service<IO> for AcceptorService / fn call" ret=r props=C18 name=native_tls::call sig_replace="fn call(&self, io: IO)=>fn call<IO>(&self, io: IO)" async_block_call="call_block(io, guard, acceptor, dur)" bind="guard=self.conns.get();;acceptor=self.acceptor.clone();;dur=self.handshake_timeout"
 //@spec
     requires true,
 //@insert before="Box::pin("
